@@ -963,9 +963,12 @@ def constructed_objects(ctx, oracle):
     for t in A:
         vals = samples.get(t, [None])
         if t is A.NAME:
-            vals = [attributes.Name.create('key-1', enums.NameType.UNINTERPRETED_TEXT_STRING), attributes.Name.create('', enums.NameType.URI)]
+            vals = [attributes.Name.create(x, enums.NameType.UNINTERPRETED_TEXT_STRING) for x in ['key-1'] + sg.TEXT_TRAPS] + \
+                   [attributes.Name.create('', enums.NameType.URI)]
+        elif t in (A.OBJECT_GROUP, A.CONTACT_INFORMATION, A.OPERATION_POLICY_NAME, A.CUSTOM_ATTRIBUTE, A.UNIQUE_IDENTIFIER):
+            vals = list(vals) + sg.TEXT_TRAPS[:8] + sg.TEXT_TRAPS[14:20]
         for val in vals:
-            for idx in (None, 0, 3):
+            for idx in ((None, 0, 3) if val in vals[:3] else (None,)):
                 try:
                     a = f.create_attribute(t, val, idx)
                 except Exception:
